@@ -98,7 +98,19 @@ class ndarray:
         return iter(list(self._d))
 
     def astype(self, dtype):
-        return ndarray(self.tolist(), self._shape, dtype)
+        d = self.tolist()
+        kind = getattr(dtype, "kind", None)
+        if kind == "f":
+            conv = lambda v: nan if v is None else v  # noqa: E731  numpy: None -> nan
+        elif kind == "i":
+            conv = lambda v: int(v) if isinstance(v, float) and v == v else v  # noqa: E731
+        else:
+            conv = lambda v: v  # noqa: E731
+        if self.ndim == 1:
+            d = [conv(v) for v in d]
+        elif self.ndim == 2:
+            d = [[conv(v) for v in r] for r in d]
+        return ndarray(d, self._shape, dtype)
 
     def copy(self):
         return ndarray(self.tolist(), self._shape, self.dtype)
@@ -390,7 +402,13 @@ def mean(a, axis=None):
 
 
 def exp(x):
-    raise OutsideModel("npl.exp")
+    from models.skl import Opaque
+
+    if isinstance(x, Opaque):
+        return Opaque("exp", x)
+    import math
+
+    return math.exp(x)
 
 
 class _C:
